@@ -158,13 +158,13 @@ if f5: S0["multipleOf"] = m
     hs += _triple("c01_arr_nested_items", f"m: int, v: {NV}", NPRE,
                   '{"items": {"type": "array", "items": {"type": "integer", "minimum": m}, "maxItems": 1}}', group="arr", tier=T, timeout=60)
     FV = "List[List[Union[int, float]]]"
-    hs += _triple("c01_arr_nested_unique_float", f"v: {FV}", NPRE, '{"uniqueItems": True}', group="lit", timeout=200,
+    hs += _triple("c01_arr_nested_unique_float", f"v: {FV}", NPRE + ["finite_json(v)"], '{"uniqueItems": True}', group="lit", timeout=200,
                   covers="uniqueItems on nested arrays whose members may be int or float (1 == 1.0 in JSON)")
-    hs += _triple("c01_arr_unique_mixed_float", "v: List[Union[int, float, List[Union[int, float]]]]", ["len(v) <= 3", "all((not isinstance(x, list)) or len(x) <= 1 for x in v)"],
+    hs += _triple("c01_arr_unique_mixed_float", "v: List[Union[int, float, List[Union[int, float]]]]", ["len(v) <= 3", "all((not isinstance(x, list)) or len(x) <= 1 for x in v)", "finite_json(v)"],
                   '{"uniqueItems": True}', group="lit", timeout=300, tier=T)
-    hs += _triple("c01_arr_unique_dict_float", "v: List[Dict[str, Union[int, float]]]", ["len(v) <= 2", "all(len(d) <= 1 and all(k in ('a', 'b') for k in d) for d in v)"],
+    hs += _triple("c01_arr_unique_dict_float", "v: List[Dict[str, Union[int, float]]]", ["len(v) <= 2", "all(len(d) <= 1 and all(k in ('a', 'b') for k in d) for d in v)", "finite_json(v)"],
                   '{"uniqueItems": True}', group="lit", timeout=300)
-    hs += _triple("c01_lit_const_float", "c: int, v: Union[int, float, List[Union[int, float]]]", ["not isinstance(v, list) or len(v) <= 2"],
+    hs += _triple("c01_lit_const_float", "c: int, v: Union[int, float, List[Union[int, float]]]", ["not isinstance(v, list) or len(v) <= 2", "finite_json(v)"],
                   '{"enum": [c, [c], [c, 1.0]]}', group="lit", timeout=200)
     hs += _triple("c01_lit_const_list", f"c: Union[int, bool], v: Union[List[Union[int, bool]], int]", LPRE, '{"const": [c]}', group="lit")
     hs += _triple("c01_lit_enum_list", f"c: Union[int, bool], d: Union[int, bool], v: Union[List[Union[int, bool]], int, bool]", LPRE,
